@@ -19,6 +19,8 @@ CHECKS = {
          "Exhaustive single-point corruption and fault-point enumeration for small blocks, sampled for larger ones; the oracle is the implication effects => (header, count, merkle root all verified) plus order/identity/proof validity of the confirmations.", "3/C04"),
  "C05": ("exploration", "runtime monitoring: offline order / exactly-once / conservation checker over the recorded block-request and processing log of a real NodeManager + BlockManager driven by a scripted, failing block source; bounded-progress check at observed quiescence; race detector",
          "Thousands of scenarios over chain length, start height, already-processed sets, mid-round headers, source failures and reorgs with pending requests; the request log must be contiguous ascending best-chain blocks from the right first height, never below start / already processed, each processed once, and complete after the final trigger.", "3/C05"),
+ "C06": ("exploration", "runtime monitoring: recorded concurrent histories of the real TxManager checked offline - conservation (exactly-once), never-after-delivery, per-txid linearizability (porcupine) and a one-sided timing inequality for re-requests; end-to-end slice with real nodes sharing the manager; race detector",
+         "Thousands of histories with 2-16 concurrent peers over few txids in two timeout regimes; every call recorded at the client boundary; bounded-retry polls at quiescence instead of an unbounded eventually.", "3/C06"),
  "C07": ("exploration", "runtime monitoring: stream applier + set-difference oracle on the subscriber channels after every submission",
          "Announcements of every submission compared with best-chain-after minus best-chain-before for 0-3 subscribers over seeded histories with every reorg kind.", "3/C07"),
  "C08": ("exploration", "runtime monitoring: set-valued reference verdict per submission and full read-API snapshot diff around every refusal",
